@@ -165,11 +165,9 @@ func VH_C06_StreamTiming() {
 // C06 H1: one page-header packet from an arbitrary buffer state.  BV8; 8 symbolic (raw, Hamming-coded) header bytes.
 func VH_C06_HeaderStep() {
 	cd := newTeletextCharacterDecoder()
-	selected := choose(2) == 1
-	page := 0
-	if selected {
-		page = 888
-	}
+	page := []int{0, 888, 100, 805, 150}[choose(5)]
+	selected := page != 0
+	selMag, selPage := uint8(page/100), page%100
 	b := newTeletextPageBuffer(page, cd)
 	t0 := astits.ClockReference{Base: 90000}.Time()
 	t1 := astits.ClockReference{Base: 180000}.Time()
@@ -195,23 +193,24 @@ func VH_C06_HeaderStep() {
 	c11, ok4 := astikit.ByteHamming84Decode(raw[7])
 	pn := int(tens)*10 + int(units)
 	if selected {
-		other := vor(pn != 88, mag != 8)
+		other := vor(pn != selPage, mag != selMag)
 		if !(ok1 && ok2 && ok4) {
 			vassert(b.currentPage == prev && b.receiving == wasReceiving, "C06 header: an undecodable header changes nothing")
 			return
 		}
 		if other {
 			vassert(b.currentPage == prev, "C06 header: a header of another page or magazine never creates or extends a page")
+			vassert(b.magazineNumber == selMag && b.pageNumber == selPage, "C06 header: the selected page stays selected")
 			vassert(vimplies(b.receiving, wasReceiving), "C06 header: a header of another page never starts reception")
 			if wasReceiving && !(tens == 0xf && units == 0xf) {
 				serial := c11&1 > 0
-				if serial && pn != 88 {
+				if serial && pn != selPage {
 					vassert(!b.receiving, "C06 header: under serial mode any other page number terminates reception")
 				}
-				if !serial && pn != 88 && mag == 8 {
+				if !serial && pn != selPage && mag == selMag {
 					vassert(!b.receiving, "C06 header: under parallel mode another page of the same magazine terminates reception")
 				}
-				if !serial && mag != 8 {
+				if !serial && mag != selMag {
 					vassert(b.receiving, "C06 header: under parallel mode a page of another magazine does not terminate reception")
 				}
 			}
